@@ -1,5 +1,6 @@
 import io
 import logging
+import struct
 import zlib
 from typing import (
     TYPE_CHECKING,
@@ -69,6 +70,19 @@ PDFObjectNotFound = pdfexceptions.PDFObjectNotFound
 PDFNotImplementedError = pdfexceptions.PDFNotImplementedError
 
 _DEFAULT = object()
+
+# What the filter decoders and predictors raise on damaged input.
+_DECODE_ERRORS = (
+    ValueError,  # includes binascii.Error
+    TypeError,
+    IndexError,
+    KeyError,
+    RuntimeError,  # e.g. a StopIteration raised inside a generator expression
+    StopIteration,
+    ArithmeticError,
+    EOFError,
+    struct.error,
+)
 
 
 class PDFObjRef(PDFObject):
@@ -342,6 +356,23 @@ class PDFStream(PDFObject):
         assert self.data is None and self.rawdata is not None, str(
             (self.data, self.rawdata),
         )
+        try:
+            self._decode()
+        except PDFException:
+            raise
+        except _DECODE_ERRORS as e:
+            # Damaged data or parameters make the filter decoders and the
+            # predictors fail in many ways (binascii.Error, IndexError,
+            # StopIteration inside a generator, struct.error, ...).
+            error_msg = f"Cannot decode stream {self.objid!r}: {e!r}"
+            if settings.STRICT:
+                raise PDFException(error_msg)
+            logger.warning(error_msg)
+            self.data = b""
+            self.rawdata = None
+
+    def _decode(self) -> None:
+        assert self.rawdata is not None
         data = self.rawdata
         if self.decipher and self.attrs.get("Type") is not LITERAL_XREF:
             # Handle encryption (cross-reference streams are never encrypted)
